@@ -158,7 +158,8 @@ class Monitor(object):
         self.keep = keep_events
         self.events = []          # dicts (recording) or None placeholders (injected runs)
         self.n = 0
-        self.mutations = []
+        self.mutations = []          # of the touched variables
+        self.other_mutations = []    # of any other environment variable
         self.fired = None
         self.diverged = None
         self.active = False
@@ -225,7 +226,7 @@ class Monitor(object):
         if op is not None:
             fr = sys._getframe(1)
             key = fr.f_locals.get('key')
-            if key in self.touched:
+            if True:
                 anc = []
                 stack = []
                 # Is an exception in flight, and in which pydl frame is it being handled?
@@ -251,8 +252,12 @@ class Monitor(object):
                 cleanup = None
                 if hdepth is not None:
                     cleanup = sorted(i for i, dg in anc if dg >= hdepth)
-                self.mutations.append(dict(op=op, key=key, at=self.n, enclosing=sorted(i for i, _ in anc),
-                                           stack=stack, cleanup=cleanup))
+                rec = dict(op=op, key=key, at=self.n, enclosing=sorted(i for i, _ in anc),
+                           stack=stack, cleanup=cleanup)
+                if key in self.touched:
+                    self.mutations.append(rec)
+                else:
+                    self.other_mutations.append(rec)
             return None
         if not code.co_filename.startswith(PYDL) or code.co_name == '<module>':
             return mon.DISABLE
@@ -342,6 +347,37 @@ def admissible_limit(m):
             break
         first[mu['key']] = mu['at']
     return r
+
+
+def other_windows(m):
+    """Environment variables other than the designated ones that the code under test
+    mutates (a stage that sets and later restores, say, a thread-count variable).
+    -> (blocked, windows): `blocked` = [(lo, hi)) event index ranges that are the
+    restoration mechanism of such a variable (never fault points); `windows` =
+    [(lo, hi, key)] ranges in which that variable is perturbed (preferred fault points)."""
+    blocked, windows = [], []
+    by_key = {}
+    for mu in m.other_mutations:
+        by_key.setdefault(mu['key'], []).append(mu)
+    for key, mus in sorted(by_key.items()):
+        a = None
+        for mu in mus:
+            if a is None and mu.get('cleanup') is None:
+                a = mu['at']
+                continue
+            lo_candidates = [mu['at']]
+            if mu.get('cleanup'):
+                lo_candidates.append(mu['cleanup'][0])
+            if a is not None:
+                lo_candidates += [x for x in mu['enclosing'] if x >= a]
+            lo = min(lo_candidates)
+            blocked.append((lo, mu['at']))
+            if a is not None:
+                windows.append((a, lo, key))
+            a = None if mu['op'] == 'set' or mu['op'] == 'del' else a
+        if a is not None:
+            windows.append((a, m.n, key))
+    return blocked, windows
 
 
 def l1_codes(m, entry_keys):
